@@ -492,6 +492,23 @@ class Impl:
         self.slots[int(dst)] = H
         return {"lines": sorted([ord(c) for c in l] for l in lines)}
 
+    def op_textrtn(self, kind, src, dst, delim, k, *rest):
+        """like textrt, for any node type whose str() is given by the table on the line: the text is parsed back
+        with nodetype=str (the library's own converter for such ids)"""
+        import io
+        G = self.G(src)
+        kind, d = int(kind), self.DELIMS[int(delim)]
+        buf = io.BytesIO()
+        (_el.write_interactions if kind else _el.write_snapshots)(G, buf, delimiter=d)
+        txt = buf.getvalue().decode("utf-8")
+        if txt and not txt.endswith("\n"):
+            return "no-trailing-newline"
+        lines = txt.split("\n")[:-1]
+        H = (_el.parse_interactions if kind else _el.parse_snapshots)(
+            lines, directed=G.is_directed(), delimiter=d, nodetype=str, timestamptype=int)
+        self.slots[int(dst)] = H
+        return {"lines": sorted([ord(c) for c in l] for l in lines)}
+
     def op_rkeys(self, kind, dst, cls, k, *rest):
         """read_snapshots / read_interactions with keys=True on a real file (rows given as token lists)"""
         import tempfile, shutil
